@@ -13,7 +13,7 @@ from pv.core import Sub, Violation, call_fuel, check, short
 from pv.codec import build, Env, D0, token, vtoken
 
 ASSUMPTIONS = [
-    'key cells: None, ints {1,2}, floats {1.0,2.5}, NaN objects (two identities), strings {"a","1"}, two datetimes - no bools (cmp ranks True apart from 1 while == does not)',
+    'key cells: None, ints {0,1,2}, floats {0.0,1.0,2.5}, NaN objects (two identities), strings {"","a","1"}, two datetimes - no bools (cmp ranks True apart from 1 while == does not)',
     "x.xor(y, mode='r') (documented as 'what is in y but not in x') is checked as the mirrored anti-join whenever the generated mode is r/right/1",
     'xor is claimed with >= 1 key column: with no key column it returns x unchanged, which tests/test_dictable.py::test_dictable_xor_no_rhs pins as intended',
     'computed keys (callables) read columns whose names do not collide with the key-column name given by the other side',
@@ -23,8 +23,8 @@ ASSUMPTIONS = [
     'mode "l"/"r" are also spelled "left"/"right"; same-named non-key columns exist in ~half the cases',
 ]
 
-_key = st.one_of(st.none(), st.sampled_from([1, 2]), st.sampled_from([1.0, 2.5]), st.integers(0, 1).map(lambda k: ['nan', k]),
-                 st.sampled_from(['a', '1']), st.sampled_from([['dt', D0, 0], ['dt', D0 + 1, 0]]))
+_key = st.one_of(st.none(), st.sampled_from([1, 2, 0]), st.sampled_from([1.0, 2.5, 0.0]), st.integers(0, 1).map(lambda k: ['nan', k]),
+                 st.sampled_from(['a', '1', '']), st.sampled_from([['dt', D0, 0], ['dt', D0 + 1, 0]]))
 _key_narrow = st.one_of(st.sampled_from([1, 1.0, 2]), st.integers(0, 1).map(lambda k: ['nan', k]), st.none())
 _val = st.one_of(st.none(), st.integers(0, 3), st.sampled_from([0.5, 1.0]), st.sampled_from(['u', 'v']), st.just(['nan', 2]))
 
@@ -276,6 +276,12 @@ def run_join(spec):
                                 % (what_r, len(unmatched_r), short(sorted(exp_r.elements()), 250), len(res_r), short(sorted(got_r.elements()), 250)))
     check(_same(sx, x), '%s modified its left operand: now %s', what, dict(x))
     check(_same(sy, y), '%s modified its right operand: now %s', what, dict(y))
+    # the result must not share its column lists with an operand: scribble over the result, then look at the operands again
+    for col, values in dict(res).items():
+        for i in range(len(values)):
+            values[i] = ('scribble', col, i)
+    check(_same(sx, x), '%s returned a table that shares storage with its left operand (writing into the result changed x: %s)', what, dict(x))
+    check(_same(sy, y), '%s returned a table that shares storage with its right operand (writing into the result changed y: %s)', what, dict(y))
 
     # ---- classes
     lks = [tuple(vtoken(v) for v in lkey(l)) for l in L]
